@@ -1149,6 +1149,33 @@ def enumerate_paths(body, max_paths=512, start_bb=0, succ=None):
     return results
 
 
+def receiver_chain(body, op, limit=12):
+    """Calls producing `op`, following the first argument (receiver) through single definitions:
+    `x.into_iter().filter(p).collect()` -> [collect, filter, into_iter, <producer of x>]."""
+    out = []
+    cur = op
+    for _ in range(limit):
+        pl = op_place(cur)
+        if pl is None:
+            break
+        cp = canon_place(body, pl)
+        if cp["p"] and not all(e == "*" for e in cp["p"]):
+            break
+        sd = body.single_def(cp["l"])
+        if sd is None:
+            break
+        if sd[1] == "assign" and sd[2]["rv"]["k"] == "ref":
+            cur = {"k": "copy", "pl": sd[2]["rv"]["pl"]}
+            continue
+        if sd[1] != "call":
+            break
+        out.append((sd[0], sd[2]))
+        if not sd[2]["args"]:
+            break
+        cur = sd[2]["args"][0]
+    return out
+
+
 def closure_of_operand(F, body, op, depth=0):
     """The closure/coroutine body whose value is (directly, via moves/refs/casts) the operand — not anything it captures."""
     if depth > 8:
